@@ -112,6 +112,45 @@ func runC14(p *an.Prog, r *an.Run, tier string) {
 			}
 		}
 	}
+	// ... or `go func() { ... handleRequest(msg) ... }()`: the goroutine is a closure of Serve that hands the captured
+	// message to the handler (the generic rule go-captures-live guards the capture against reassignment)
+	var goViaClosure ssa.Value // the captured variable's cell, when the dispatch goes through a closure
+	if goHR == nil {
+		an.AllInstrs(serve, func(in ssa.Instruction) {
+			g, ok := in.(*ssa.Go)
+			if !ok {
+				return
+			}
+			mc, ok := g.Call.Value.(*ssa.MakeClosure)
+			if !ok {
+				return
+			}
+			cfn, _ := mc.Fn.(*ssa.Function)
+			if cfn == nil {
+				return
+			}
+			for _, c := range an.Calls(cfn, false) {
+				if !calleeIs(c, hr) {
+					continue
+				}
+				if _, isGo := c.(*ssa.Go); isGo {
+					continue
+				}
+				for _, a := range c.Common().Args {
+					u, ok := a.(*ssa.UnOp)
+					if !ok || u.Op != token.MUL {
+						continue
+					}
+					for i, fv := range cfn.FreeVars {
+						if u.X == ssa.Value(fv) && i < len(mc.Bindings) {
+							goHR = g
+							goViaClosure = mc.Bindings[i]
+						}
+					}
+				}
+			}
+		})
+	}
 	var send *ssa.Send
 	an.AllInstrs(serve, func(in ssa.Instruction) {
 		if s, ok := in.(*ssa.Send); ok {
@@ -135,6 +174,13 @@ func runC14(p *an.Prog, r *an.Run, tier string) {
 			for _, a := range goHR.Call.Args {
 				if a == msg {
 					passed = true
+				}
+			}
+			if goViaClosure != nil && goViaClosure.Referrers() != nil {
+				for _, ref := range *goViaClosure.Referrers() {
+					if st, ok := ref.(*ssa.Store); ok && st.Addr == goViaClosure && st.Val == msg {
+						passed = true
+					}
 				}
 			}
 			if !passed {
